@@ -10,6 +10,10 @@
          ("equal bytes => equal fields and equal remainder"), hence by induction equal hashed stream => equal
          wire-relevant tuple for any number of rows.  z3 decides both; cvc5 cross-checks the header lemma.
 (c) xh : header lemma again on the real bytecode with symbolic strings (independent of the translator).
+(d) xh : "remains callable under a protocol-version mismatch": a ``__describe__`` request declaring nothing or any byte
+         string as its protocol version is answered with the service description - RpcServer.serve_one and the HTTP
+         _run_unary_sync (real bytecode, declared version symbolic), and the whole real socket / HTTP stack on
+         generated versions (absent / equal / older / newer / malformed shapes).
 
 Schema blobs are *assumed self-delimiting* (1-byte length prefix + content; Arrow IPC messages are length-prefixed)
 and never start with the row marker; names contain neither 0x1e nor 0x1f (true of Python identifiers).
@@ -35,7 +39,8 @@ _CL = pick(1, 2)
 BOUNDS = "(a) 0..2 rows, every flag combination of the first row, arbitrary opaque values; every single edit of one of the five per-row flags (is_exchange tri-state) changes the hashed bytes; (b) names/protocol name = any byte strings <= %d bytes without 0x1e/0x1f, blob content <= 2 bytes, remainder <= %d bytes, any number of rows by induction; (c) protocol names <= %d chars" % (pick(3, 4), pick(3, 4), _NL + 1)
 OUTSIDE = (
     "build_describe_batch <-> parse_describe_batch fidelity and cross-process stability of Arrow schema serialisation; "
-    "the __describe__ exemption from the version gate (C09); SHA-256 itself; rows are taken in the order given (sorting by name is build_describe_batch's)"
+    "of the version gate only the __describe__ exemption is decided here (one declaring service; the gate itself, other methods and "
+    "undeclared services are C09's); HTTP stream routes carry no __describe__; SHA-256 itself; rows are taken in the order given (sorting by name is build_describe_batch's)"
 )
 ASSUMPTIONS = [
     "hashlib.sha256 := ideal hash: records its input, digest is a function of the input only, distinct inputs give distinct digests",
@@ -1260,3 +1265,354 @@ def hash_input_is_injective(budget: float, replay=None) -> dict:
         return res
     res.update(verdict="INCONCLUSIVE", detail=f"lemma results {verdicts}: {log}")
     return res
+
+
+# ---------------------------------------------------------------------------
+# (d) "... and remains callable under a protocol-version mismatch"
+# ---------------------------------------------------------------------------
+# docs/WIRE_PROTOCOL.md "Protocol version negotiation": ``__describe__`` is exempt from the application
+# protocol-version gate; every gate failure (absent key, undecodable bytes, malformed semver, genuine major/minor
+# difference) is a ``protocol_version_mismatch``.  So whatever a client declares on its ``__describe__`` request -
+# nothing, the server's version, an older or newer one, something malformed - the call is answered with the service
+# description, on the socket/pipe dispatch (RpcServer.serve_one) and on the HTTP dispatch (_run_unary_sync) alike.
+#   describe_answered_for_any_declared_version : the two real dispatch functions (same bytecode), the declared version a
+#       symbolic byte string (any content); only ``_read_request`` is wrapped (Arrow cannot carry a symbolic value).
+#   describe_callable_on_real_stack            : the whole real stack (real request bytes -> serve_one / falcon app ->
+#       response bytes) on versions generated from solver-chosen components and shapes (case split, concrete cells).
+# Both judge the answer the way a client would: no error, HTTP 200, and the parsed description equals the one the
+# public http_introspect() / a plain serve_one obtain without declaring anything.
+
+from dataclasses import dataclass as _dataclass  # noqa: E402
+from io import BytesIO as _BytesIO  # noqa: E402
+from typing import ClassVar as _ClassVar, Protocol as _Protocol  # noqa: E402
+
+from engine.reglob import reglobalize as _reglobalize  # noqa: E402
+from pyarrow import ipc as _ipc  # noqa: E402
+
+from vgi_rpc import metadata as _mdk  # noqa: E402
+from vgi_rpc.http.server import _app as _happ, _app_unary as _hunary  # noqa: E402
+from vgi_rpc.rpc import ProducerState as _ProducerState, RpcError as _RpcError, Stream as _Stream  # noqa: E402
+from vgi_rpc.rpc import _common as _rcommon, _server as _srv, _wire as _rwire  # noqa: E402
+
+_D_DECLARED = (1, 1, 0)  # components 0..2 around it give older / equal / newer in major and in minor
+_D_SCHEMA = pa.schema([pa.field("v", pa.int64())])
+_D_CT = {"Content-Type": "application/vnd.apache.arrow.stream"}
+
+
+@_dataclass
+class _DProd(_ProducerState):
+    def produce(self, out, ctx) -> None:  # type: ignore[no-untyped-def]
+        out.finish()
+
+
+class _DSvc(_Protocol):
+    protocol_version: _ClassVar[str] = "%d.%d.%d" % _D_DECLARED
+
+    def add(self, a: int, b: str = "x") -> int: ...
+
+    def note(self, text: str) -> None: ...
+
+    def gen(self, n: int) -> _Stream[_DProd]: ...
+
+
+class _DImpl:
+    def add(self, a: int, b: str = "x") -> int:
+        return a + 1
+
+    def note(self, text: str) -> None:
+        return None
+
+    def gen(self, n: int) -> _Stream[_DProd]:
+        return _Stream(output_schema=_D_SCHEMA, state=_DProd())
+
+
+def _untraced(fn, *a):  # type: ignore[no-untyped-def]
+    """Run ``fn`` concretely (outside CrossHair's tracer) - for the byte-level parts: Arrow, falcon."""
+    try:
+        from crosshair.tracers import NoTracing, is_tracing
+
+        tracing = is_tracing()
+    except ImportError:  # pragma: no cover
+        tracing = False
+    if tracing:
+        with NoTracing():
+            return fn(*a)
+    return fn(*a)
+
+
+def _describe_request(version: bytes | None) -> bytes:
+    """A real ``__describe__`` request stream whose batch declares ``version`` (raw metadata bytes) or nothing."""
+    kv = {_mdk.RPC_METHOD_KEY: b"__describe__", _mdk.REQUEST_VERSION_KEY: _mdk.REQUEST_VERSION}
+    if version is not None:
+        kv[_mdk.PROTOCOL_VERSION_KEY] = version
+    schema = pa.schema([])
+    buf = _BytesIO()
+    with _ipc.new_stream(buf, schema) as w:
+        w.write_batch(pa.RecordBatch.from_pydict({}, schema=schema), custom_metadata=pa.KeyValueMetadata(kv))
+    return buf.getvalue()
+
+
+class _DTransport:
+    def __init__(self, request: bytes) -> None:
+        self.reader = _BytesIO(request)
+        self.writer = _BytesIO()
+
+    def close(self) -> None:
+        pass
+
+
+_D: dict = {}
+
+
+def _d_env() -> dict:
+    """Real server, real HTTP app object and falcon client for the one service, and the reference description."""
+    if not _D:
+        from vgi_rpc.http import http_introspect
+        from vgi_rpc.http._testing import make_sync_client
+
+        server = _srv.RpcServer(_DSvc, _DImpl(), server_id="srv", enable_describe=True)
+        client = make_sync_client(server, token_key=b"k" * 32, compression_level=None)
+        tr = _DTransport(_describe_request(None))
+        server.serve_one(tr)
+        env = dict(server=server, client=client, app=_happ._HttpRpcApp(server, b"k" * 32), info=server.methods["__describe__"],
+                   ref_http=_desc_key(http_introspect(client=client)), ref_socket=_desc_key(_parse_describe(tr.writer.getvalue())))
+        ref = env["ref_http"]
+        if ref != env["ref_socket"] or set(ref[3]) != {"add", "note", "gen"} or ref[1] != _DSvc.protocol_version:
+            raise HarnessModelError("the reference description (no version declared) is not the service's: harness out of date")
+        _D.update(env)
+    return _D
+
+
+def _parse_describe(body: bytes):  # type: ignore[no-untyped-def]
+    """What a client reading this response stream gets: the ServiceDescription, or the RpcError it would raise."""
+    from vgi_rpc.utils import IpcValidation, ValidatedReader
+
+    try:
+        rd = ValidatedReader(_ipc.open_stream(_BytesIO(body)), IpcValidation.FULL)
+        ab = _rwire._read_batch_with_log_check(rd, None)
+        return isp.parse_describe_batch(ab.batch, ab.custom_metadata)
+    except _RpcError as e:
+        return e
+
+
+def _desc_key(d):  # type: ignore[no-untyped-def]
+    """The described content the property speaks of: identity (name, declared version, hash) and, per method, kind,
+    parameter / result / header schemas and exchange flag."""
+    ms = {n: (m.method_type, m.has_return, m.params_schema, m.result_schema, m.has_header, m.header_schema, m.is_exchange) for n, m in d.methods.items()}
+    return (d.protocol_name, d.protocol_version, d.protocol_hash, ms)
+
+
+def _judge_describe(where: str, status, body: bytes, ref) -> str | None:  # type: ignore[no-untyped-def]
+    """Property-level judgement of one answer; a description of the breach, or None."""
+    if status is not None and status != 200:
+        try:
+            got = _parse_describe(body) if body else None
+        except Exception:  # noqa: BLE001
+            got = None
+        why = f" ({got.error_type}, kind {got.error_kind!r})" if isinstance(got, _RpcError) else ""
+        return f"{where}: HTTP {status}{why} - introspection is not callable"
+    try:
+        got = _parse_describe(body)
+    except Exception as e:  # noqa: BLE001
+        return f"{where}: the answer is not a readable description ({type(e).__name__}: {e})"
+    if isinstance(got, _RpcError):
+        return f"{where}: refused with {got.error_type} (kind {got.error_kind!r}) - introspection is not callable"
+    if _desc_key(got) != ref:
+        return f"{where}: the description differs from the one obtained without declaring a version: {_desc_key(got)[:3]!r}"
+    return None
+
+
+def _describe_on_real_stack(http: bool, version: bytes | None) -> str | None:
+    """Un-stubbed: real request bytes through the real falcon app / the real serve_one."""
+    env = _d_env()
+    where = "%s __describe__, client declaring %r, server declaring %s" % ("HTTP" if http else "socket", version, _DSvc.protocol_version)
+    if http:
+        r = env["client"].post("/__describe__", content=_describe_request(version), headers=_D_CT)
+        return _judge_describe(where, r.status_code, r.content, env["ref_http"])
+    tr = _DTransport(_describe_request(version))
+    try:
+        env["server"].serve_one(tr)
+    except Exception as e:  # noqa: BLE001
+        return f"{where}: serve_one raised {type(e).__name__}: {e}"
+    return _judge_describe(where, None, tr.writer.getvalue(), env["ref_socket"])
+
+
+# -- symbolic declared version through the two dispatch functions ------------------------------------------------
+
+_D_HOLD: dict = {"present": False, "raw": b""}
+
+
+class _DeclaredMd:
+    """The request's custom metadata as the real reader decoded it, with the ``vgi_rpc.protocol_version`` entry taken
+    from the harness (absent, or a symbolic byte string).  Read-only mapping interface of KeyValueMetadata."""
+
+    def __init__(self, base) -> None:  # type: ignore[no-untyped-def]
+        self._base = base
+
+    def _keys(self) -> list:
+        ks = [k for k in self._base.keys() if k != _mdk.PROTOCOL_VERSION_KEY]
+        return ks + ([_mdk.PROTOCOL_VERSION_KEY] if _D_HOLD["present"] else [])
+
+    def get(self, key, default=None):  # type: ignore[no-untyped-def]
+        if key == _mdk.PROTOCOL_VERSION_KEY or key == _mdk.PROTOCOL_VERSION_KEY.decode():
+            return _D_HOLD["raw"] if _D_HOLD["present"] else default
+        return self._base.get(key, default)
+
+    def __getitem__(self, key):  # type: ignore[no-untyped-def]
+        v = self.get(key)
+        if v is None:
+            raise KeyError(key)
+        return v
+
+    def __contains__(self, key) -> bool:  # type: ignore[no-untyped-def]
+        return self.get(key) is not None
+
+    def __iter__(self):  # type: ignore[no-untyped-def]
+        return iter(self._keys())
+
+    def __len__(self) -> int:
+        return len(self._keys())
+
+    def keys(self):  # type: ignore[no-untyped-def]
+        return self._keys()
+
+    def items(self):  # type: ignore[no-untyped-def]
+        return [(k, self.get(k)) for k in self._keys()]
+
+    def __getattr__(self, name: str):  # type: ignore[no-untyped-def]
+        raise HarnessModelError("request metadata." + name + " not modelled")
+
+
+def _read_request_declaring(*a, **k):  # type: ignore[no-untyped-def]
+    """The real ``_read_request`` on the real (concrete) request bytes; afterwards the published request metadata
+    carries the harness's declared version instead of the (absent) one on the wire."""
+    out = _untraced(lambda: _rwire._read_request(*a, **k))
+    _rcommon._current_request_metadata.set(_DeclaredMd(_rcommon._current_request_metadata.get()))
+    return out
+
+
+_serve_one_rg = _reglobalize(_srv.RpcServer.serve_one, _read_request=_read_request_declaring)
+_run_unary_rg = _reglobalize(_hunary._run_unary_sync, _read_request=_read_request_declaring)
+
+
+def _declared_of(args: dict) -> bytes | None:
+    raw = args["raw"]
+    return (raw if isinstance(raw, bytes) else bytes(raw)) if args["present"] else None
+
+
+def _version_class(version: bytes | None) -> str:
+    """Signature only: what the client declared, relative to the service's version."""
+    if version is None:
+        return "absent"
+    try:
+        parts = _mdk.parse_version(version.decode())
+    except ValueError:
+        return "malformed"
+    if parts[:2] == _D_DECLARED[:2]:
+        return "equal"
+    return "older" if parts[:2] < _D_DECLARED[:2] else "newer"
+
+
+_DL = pick(8, 16)
+
+
+@cond(q=40, t=120, stubs=["_read_request := the real one on the real request bytes, then the declared version in the published request metadata := the symbolic value"],
+      encoded=[_srv.RpcServer.serve_one, _hunary._run_unary_sync], replay=lambda a: _describe_on_real_stack(bool(a["http"]), _declared_of(a)),
+      bound="__describe__ request declaring nothing or ANY byte string of length <= %d as vgi_rpc.protocol_version, service declaring %s, "
+            "socket dispatch (serve_one) and HTTP dispatch (_run_unary_sync)" % (_DL, _DSvc.protocol_version),
+      signature=lambda a, c: "C39:describe-under-mismatch:%s:%s" % ("http" if a["http"] else "socket", _version_class(_declared_of(a))))
+def describe_answered_for_any_declared_version(http: bool, present: bool, raw: bytes) -> bool:
+    """
+    pre: len(raw) <= _DL
+    post: _
+    """
+    env = _untraced(_d_env)
+    _D_HOLD["present"], _D_HOLD["raw"] = (True if present else False), raw
+    request = _describe_request(None)
+    where = "dispatch"
+    try:
+        if http:
+            try:
+                buf, status = _run_unary_rg(env["app"], "__describe__", env["info"], _BytesIO(request))
+            except HarnessModelError:
+                raise
+            except Exception:  # noqa: BLE001  (an _RpcHttpError here is what the resource turns into an error response)
+                return False
+            code = status.value if hasattr(status, "value") else status
+            return _untraced(_judge_describe, where, int(code), buf.getvalue(), env["ref_http"]) is None
+        tr = _DTransport(request)
+        try:
+            _serve_one_rg(env["server"], tr)
+        except HarnessModelError:
+            raise
+        except Exception:  # noqa: BLE001
+            return False
+        return _untraced(_judge_describe, where, None, tr.writer.getvalue(), env["ref_socket"]) is None
+    finally:
+        _D_HOLD["present"], _D_HOLD["raw"] = False, b""
+
+
+# -- generated versions through the whole real stack -------------------------------------------------------------
+
+_D_SHAPES = ("absent", "canonical", "prerelease", "build", "leading-zero-minor", "leading-zero-patch", "trailing-space", "two-components", "empty", "not-utf8")
+_DC = pick(2, 4)  # components 0.._DC
+
+
+def _render_version(shape: int, M: int, m: int, p: int) -> bytes | None:
+    s = _D_SHAPES[shape]
+    core = "%d.%d.%d" % (M, m, p)
+    if s == "absent":
+        return None
+    if s == "canonical":
+        return core.encode()
+    if s == "prerelease":
+        return (core + "-rc1").encode()
+    if s == "build":
+        return (core + "+b3").encode()
+    if s == "leading-zero-minor":
+        return ("%d.0%d.%d" % (M, m, p)).encode()
+    if s == "leading-zero-patch":
+        return ("%d.%d.0%d" % (M, m, p)).encode()
+    if s == "trailing-space":
+        return (core + " ").encode()
+    if s == "two-components":
+        return ("%d.%d" % (M, m)).encode()
+    if s == "empty":
+        return b""
+    return b"\xff" + core.encode()
+
+
+def _index(i: int, n: int) -> int:
+    for k in range(n):  # branch a symbolic index to a concrete one
+        if i == k:
+            return k
+    raise HarnessModelError("index outside the table")
+
+
+def _stack_args(a: dict) -> tuple:
+    return bool(a["http"]), _render_version(int(a["shape"]), int(a["major"]), int(a["minor"]), int(a["patch"]))
+
+
+@cond(q=60, t=200, encoded=[_srv.RpcServer.serve_one, _hunary._run_unary_sync], replay=lambda a: _describe_on_real_stack(*_stack_args(a)),
+      bound="service declaring %s; client declaring: nothing | M.m.p with every component 0..%d (older / equal / newer in major and in minor, any patch) | that core decorated "
+            "(prerelease, build, leading zero, trailing space, two components, non-UTF-8 prefix) | empty; socket serve_one and the HTTP app "
+            "(solver case split; each cell runs the real stack concretely on real request bytes)" % (_DSvc.protocol_version, _DC),
+      signature=lambda a, c: "C39:describe-under-mismatch:%s:%s" % ("http" if a["http"] else "socket", _version_class(_stack_args(a)[1])))
+def describe_callable_on_real_stack(http: bool, shape: int, major: int, minor: int, patch: int) -> bool:
+    """
+    pre: 0 <= shape < len(_D_SHAPES) and 0 <= major <= _DC and 0 <= minor <= _DC and 0 <= patch <= _DC
+    post: _
+    """
+    si = _index(shape, len(_D_SHAPES))
+    if _D_SHAPES[si] in ("absent", "empty"):
+        M = m = p = 0  # the components do not take part
+    else:
+        M, m, p = _index(major, _DC + 1), _index(minor, _DC + 1), _index(patch, _DC + 1)
+    h = True if http else False
+    return _untraced(_describe_on_real_stack, h, _render_version(si, M, m, p)) is None
+
+
+ENCODED = ENCODED + [_srv.RpcServer.serve_one, _hunary._run_unary_sync]
+BOUNDS += ("; (d) __describe__ under any declared client version: symbolic byte string <= %d bytes (or none) through serve_one and _run_unary_sync; "
+           "generated versions (components 0..%d x %d shapes) through the whole real socket / HTTP stack; one service declaring %s"
+           % (_DL, _DC, len(_D_SHAPES), _DSvc.protocol_version))
